@@ -9,8 +9,11 @@
 //
 // Streams:
 //
-//	deadline  the effective deadline chosen by the model (`deadline`) = the one the property names,
-//	          and a silent peer makes the real call return not before it
+//	deadline  the deadline of the context doInvoke waits on in the model, for the dispatch path of the
+//	          scenario (`deadline … <path>`: direct / single filter / middleware / pre+post) = the
+//	          effective deadline the property names, and a silent peer makes the real call return not
+//	          before it; the grid dispatch path x deadline source x {silent, late} peer is covered in
+//	          full in every run
 //	bound     measured return time ≤ the model's bound (`budget`: max(deadline, lockAt + DialTimeout +
 //	          WriteTimeout if the send queue was full)) + slack — a larger time is a divergence (the
 //	          model promises too much); the ORACLE compares with the property's bound
@@ -141,6 +144,58 @@ func scenarios(o *common.Opts) []*callsim.Scenario {
 			}
 		}
 	}
+	// dispatch path of TarsInvoke (no filter / legacy single filter / middleware chain / pre+post filters,
+	// all pass-through) x deadline source (configured, per-call, caller's context) against a peer that
+	// never answers and one that answers far too late: the effective deadline must hold on every path
+	{
+		pconcs := []int{1}
+		if o.Thorough() {
+			pconcs = []int{1, 2, 4}
+		}
+		for pi, path := range callsim.FilterPaths {
+			for ki, kind := range kinds {
+				for _, conc := range pconcs {
+					for _, peer := range []string{"silent", "late"} {
+						tout := 300
+						cl := callsim.ClientConf{WriteTimeoutMs: -1, DialTimeoutMs: 400, ProxyTimeoutMs: tout}
+						if kind == "ctx" {
+							cl.ProxyTimeoutMs = 5000
+						} else if kind == "percall" {
+							cl.ProxyTimeoutMs = 4000
+						}
+						var calls []callsim.CallSpec
+						n := conc
+						if !o.Thorough() && (pi+ki)%2 == 1 {
+							n = 2
+						}
+						for c := 0; c < n; c++ {
+							calls = append(calls, callsim.CallSpec{Wave: 0, Timeout: kind, TimeoutMs: tout})
+						}
+						pname := path
+						if pname == "" {
+							pname = "direct"
+						}
+						sc := &callsim.Scenario{Name: fmt.Sprintf("path-%s-%s-%s-c%d", pname, kind, peer, n), Class: "path-" + peer, Client: cl,
+							Filter: path, Calls: calls, Record: n <= 2}
+						if peer == "silent" {
+							sc.Servers = []callsim.ServerSpec{{Kind: "normal", Rules: []callsim.Rule{{From: 0, To: 63, Mode: "silent"}}}}
+							sc.CapMs = 4500
+						} else {
+							// the answer comes after deadline + DialTimeout + slack: a call that is still waiting
+							// then is late beyond doubt; afterwards (the late replies have arrived and must have been
+							// discarded) one more call has to get its own answer
+							late := tout + 400 + slackMs + 400
+							sc.Servers = []callsim.ServerSpec{{Kind: "normal", Rules: []callsim.Rule{{From: 0, To: n - 1, Mode: "delay", DelayMs: late}}}}
+							sc.Calls = append(sc.Calls, callsim.CallSpec{Wave: 1, Timeout: "ctx", TimeoutMs: 1500, MustOK: true})
+							sc.GapMs = late - tout + 150
+							sc.CapMs = 8000
+						}
+						add(sc)
+					}
+				}
+			}
+		}
+	}
 	// callers queue up behind the dial lock of an endpoint that does not answer the dial
 	{
 		cl := callsim.ClientConf{WriteTimeoutMs: -1, DialTimeoutMs: 500, ProxyTimeoutMs: 200}
@@ -261,6 +316,14 @@ func main() {
 			b, _ := json.MarshalIndent(r, "", " ")
 			fmt.Println("impl result:", string(b))
 		}
+		if sc.Filter != "" && sc.Filter != "none" {
+			if r.FilterHit == 0 && len(r.Calls) > 0 {
+				res.Fatal(o.Out, fmt.Errorf("scenario %s: the installed client filter (%s) was never invoked", sc.Name, sc.Filter))
+			}
+			res.Histogram["filter-path:"+sc.Filter]++
+		} else {
+			res.Histogram["filter-path:direct"]++
+		}
 		viol := func(sig, what string, impl interface{}) {
 			b, _ := json.Marshal(impl)
 			res.Violate(common.Violation{Signature: sig, What: what, Case: common.Case{Stream: sc.Class, Op: op, Impl: string(b)}})
@@ -317,12 +380,13 @@ func main() {
 			}
 			// ---- deadline stream ----
 			px := sc.Client.ProxyTimeoutMs
-			ask(fmt.Sprintf("deadline %d %s %s 0", px, optNum(spec.Timeout == "ctx", spec.TimeoutMs), optNum(spec.Timeout == "percall", spec.TimeoutMs)), func(ans string) {
+			pathName := map[string]string{"": "direct", "none": "direct", "single": "single", "middleware": "middleware", "prepost": "prepost"}[sc.Filter]
+			ask(fmt.Sprintf("deadline %d %s %s 0 %s", px, optNum(spec.Timeout == "ctx", spec.TimeoutMs), optNum(spec.Timeout == "percall", spec.TimeoutMs), pathName), func(ans string) {
 				if ans != fmt.Sprint(eff) {
 					res.Diverge(common.Case{Stream: "deadline", Op: op, Model: ans, Impl: fmt.Sprint(eff), Note: "effective deadline of the model differs from the one the property names"})
 				}
 			})
-			if sc.Class == "silent" && c.Returned {
+			if strings.HasSuffix(sc.Class, "silent") && c.Returned {
 				if elapsed < int64(eff)-15 {
 					res.Diverge(common.Case{Stream: "deadline", Op: op, Model: fmt.Sprint(eff), Impl: fmt.Sprint(elapsed), Note: "a call to a silent peer returned before the effective deadline of the model"})
 				}
@@ -412,7 +476,7 @@ func main() {
 		lines[i].check(a)
 	}
 	res.Rule = "real client in child processes against fake servers: silent / late / slow / close after request / close on accept / garbage frame / garbage body / refuse / black hole / never reading, " +
-		"x timeout source (configured, per-call, context) x 1-8 concurrent callers; wall clock vs effective deadline + DialTimeout + 700 ms; counters through the verif export after every wave; " +
+		"x timeout source (configured, per-call, context) x 1-8 concurrent callers; dispatch path (no filter, single client filter, middleware chain, pre+post filters) x timeout source x {silent, far too late} in full;  wall clock vs effective deadline + DialTimeout + 700 ms; counters through the verif export after every wave; " +
 		"a further call after a late reply; histories with <= 2 concurrent callers replayed through the LTS; non-trivial = every scenario"
 	if err := res.Write(o.Out); err != nil {
 		panic(err)
